@@ -128,6 +128,14 @@ pub fn run_socket(sc: &Value) -> Value {
         }
         let connected = if let Some(ms) = c["fd_exhaustion_ms"].as_u64() {
             connect_during_fd_exhaustion(addr, ms)
+        } else if let Some(rb) = c["rcvbuf"].as_u64() {
+            // a small receive buffer, set before connecting, so that a large response soon fills the path to a client that does not read
+            (|| -> std::io::Result<TcpStream> {
+                let sock = socket2::Socket::new(socket2::Domain::IPV4, socket2::Type::STREAM, None)?;
+                sock.set_recv_buffer_size(rb as usize)?;
+                sock.connect(&addr.into())?;
+                Ok(sock.into())
+            })()
         } else {
             TcpStream::connect(addr)
         };
@@ -142,13 +150,19 @@ pub fn run_socket(sc: &Value) -> Value {
         s.set_nodelay(true).unwrap();
         let pause = c["pause_ms"].as_u64().unwrap_or(120);
         let mut werr: Option<String> = None;
-        for ch in c["chunks"].as_array().unwrap() {
+        let chunks = c["chunks"].as_array().unwrap();
+        let fin_now = c["fin_immediately"].as_bool().unwrap_or(false);
+        for (ci, ch) in chunks.iter().enumerate() {
             let b = unhex(ch.as_str().unwrap());
             if let Err(e) = s.write_all(&b) {
                 werr = Some(e.to_string());
                 break;
             }
             let _ = s.flush();
+            if fin_now && ci + 1 == chunks.len() {
+                // the FIN travels right behind the last bytes (queued before the server gets to read them)
+                break;
+            }
             std::thread::sleep(Duration::from_millis(pause));
         }
         match c["end"].as_str().unwrap_or("hold") {
@@ -158,7 +172,20 @@ pub fn run_socket(sc: &Value) -> Value {
             _ => {}
         }
         let (got, closed) = read_for(&mut s, c["read_ms"].as_u64().unwrap_or(400));
-        results.push(json!({"received": hex(&got), "closed_by_server": closed, "write_error": werr}));
+        let mut res = json!({"received": hex(&got), "closed_by_server": closed, "write_error": werr});
+        // optional second phase on the same connection: stay idle, then send more and read again
+        if let Some(after) = c["then_after_ms"].as_u64() {
+            std::thread::sleep(Duration::from_millis(after));
+            if let Some(chs) = c["then_chunks"].as_array() {
+                for ch in chs {
+                    let _ = s.write_all(&unhex(ch.as_str().unwrap()));
+                }
+            }
+            let (got2, closed2) = read_for(&mut s, c["then_read_ms"].as_u64().unwrap_or(400));
+            res["later_received"] = json!(hex(&got2));
+            res["later_closed"] = json!(closed2);
+        }
+        results.push(res);
         if c["end"].as_str().unwrap_or("hold") == "reset" {
             // abortive close: SO_LINGER 0 makes close() send RST
             let sk = socket2::Socket::from(s);
